@@ -4,6 +4,7 @@ package main
 // in which function, under which dominating guards.
 
 import (
+	"encoding/hex"
 	"fmt"
 	"go/ast"
 	"go/constant"
@@ -146,6 +147,9 @@ func (se *strEval) eval(e ast.Expr, fr *envFrame) ([]string, bool) {
 		return nil, false
 	case *ast.Ident:
 		obj := se.info.ObjectOf(t)
+		if _, isNil := obj.(*types.Nil); isNil {
+			return []string{""}, true // a nil byte slice: no bytes
+		}
 		if fr != nil {
 			if vals, ok := fr.locals[obj]; ok {
 				return append([]string{}, vals...), true
@@ -243,11 +247,75 @@ func (se *strEval) eval(e ast.Expr, fr *envFrame) ([]string, bool) {
 		if tv, ok := se.info.Types[t.Fun]; ok && tv.IsType() && len(t.Args) == 1 {
 			return se.eval(t.Args[0], fr)
 		}
+		if vals, handled, ok := se.evalBuiltinBytes(t, fr); handled {
+			return vals, ok
+		}
 		fn := calleeOf(se.info, t)
 		if fn == nil {
 			return nil, false
 		}
 		switch fullName(fn) {
+		case "encoding/hex.EncodeToString", "strings.ToUpper", "strings.ToLower":
+			// on fully constant text only (a hole would be rewritten as if it were text)
+			if len(t.Args) != 1 {
+				return nil, false
+			}
+			vals, ok := se.eval(t.Args[0], fr)
+			if !ok {
+				return nil, false
+			}
+			var out []string
+			for _, v := range vals {
+				if strings.Contains(v, "%") {
+					return nil, false
+				}
+				switch fn.Name() {
+				case "EncodeToString":
+					v = hex.EncodeToString([]byte(v))
+				case "ToUpper":
+					v = strings.ToUpper(v)
+				case "ToLower":
+					v = strings.ToLower(v)
+				}
+				out = appendUniq(out, v)
+			}
+			return out, true
+		case "strconv.Itoa":
+			if len(t.Args) == 1 {
+				return se.intText(t.Args[0], 10, fr)
+			}
+			return nil, false
+		case "strconv.FormatInt", "strconv.FormatUint":
+			if len(t.Args) == 2 {
+				if base, ok := se.constIntArg(t.Args[1], fr); ok {
+					return se.intText(t.Args[0], base, fr)
+				}
+			}
+			return nil, false
+		case "strconv.AppendInt", "strconv.AppendUint":
+			if len(t.Args) == 3 {
+				if base, ok := se.constIntArg(t.Args[2], fr); ok {
+					head, okH := se.eval(t.Args[0], fr)
+					num, okN := se.intText(t.Args[1], base, fr)
+					if okH && okN {
+						return crossConcat(head, num), true
+					}
+				}
+			}
+			return nil, false
+		case "fmt.Appendf":
+			if len(t.Args) >= 2 {
+				head, okH := se.eval(t.Args[0], fr)
+				fmts, okF := se.eval(t.Args[1], fr)
+				if okH && okF {
+					var tail []string
+					for _, f := range fmts {
+						tail = append(tail, se.applyFormatAll(f, t.Args[2:], t.Ellipsis.IsValid(), fr)...)
+					}
+					return crossConcat(head, tail), true
+				}
+			}
+			return nil, false
 		case "fmt.Sprintf":
 			if len(t.Args) == 0 {
 				return nil, false
@@ -371,6 +439,13 @@ func (se *strEval) evalStmts(list []ast.Stmt, fr *envFrame, st *bodyState, depth
 						fr.locals[se.info.Defs[id]] = v
 						continue
 					}
+					// buf := make([]byte, 0, n) / []byte("...") : a byte-slice accumulator
+					if isByteSlice(se.info.TypeOf(id)) && fr != nil && se.info.Defs[id] != nil {
+						if v, ok := se.eval(t.Rhs[0], fr); ok {
+							fr.locals[se.info.Defs[id]] = v
+						}
+						continue
+					}
 					if isBuilderType(se.info.TypeOf(id)) {
 						if st.builder == nil {
 							st.builder = se.info.Defs[id]
@@ -380,6 +455,23 @@ func (se *strEval) evalStmts(list []ast.Stmt, fr *envFrame, st *bodyState, depth
 					}
 					// any other local (`next := &vx.cursorNext`): what is written from it stays a hole
 					continue
+				}
+			}
+			// s = <expr> / s += <expr> on a string or byte-slice local whose value so far is known (straight-line
+			// code: undecided conditions only guard returns, decided ones are followed)
+			if len(t.Lhs) == 1 && len(t.Rhs) == 1 && (t.Tok == token.ASSIGN || t.Tok == token.ADD_ASSIGN) && fr != nil {
+				if id, isID := t.Lhs[0].(*ast.Ident); isID && id.Name != "_" {
+					if cur, tracked := fr.locals[se.info.ObjectOf(id)]; tracked {
+						v, ok := se.eval(t.Rhs[0], fr)
+						if !ok {
+							return nil, false, false
+						}
+						if t.Tok == token.ADD_ASSIGN {
+							v = crossConcat(cur, v)
+						}
+						fr.locals[se.info.ObjectOf(id)] = v
+						continue
+					}
 				}
 			}
 			// `_ = x` (left behind by helper inlining) has no effect
@@ -411,6 +503,15 @@ func (se *strEval) evalStmts(list []ast.Stmt, fr *envFrame, st *bodyState, depth
 								return nil, false, false
 							}
 							fr.locals[o] = v
+						} else if isByteSlice(se.info.TypeOf(nm)) {
+							if v, ok := se.eval(vs.Values[i], fr); ok {
+								fr.locals[o] = v
+							}
+						}
+					case len(vs.Values) == 0 && fr != nil && o != nil:
+						// var s string / var buf []byte: empty
+						if bt, isB := se.info.TypeOf(nm).Underlying().(*types.Basic); (isB && bt.Info()&types.IsString != 0) || isByteSlice(se.info.TypeOf(nm)) {
+							fr.locals[o] = []string{""}
 						}
 					}
 				}
@@ -421,10 +522,49 @@ func (se *strEval) evalStmts(list []ast.Stmt, fr *envFrame, st *bodyState, depth
 				return nil, false, false
 			}
 			sel, isSel := c2.Fun.(*ast.SelectorExpr)
-			if !isSel || st.builder == nil || rootObj(se.info, sel.X) != st.builder || sel.Sel.Name != "WriteString" || len(c2.Args) != 1 {
+			if !isSel || st.builder == nil {
 				return nil, false, false
 			}
-			v, ok := se.eval(c2.Args[0], fr)
+			var v []string
+			ok := false
+			switch {
+			case rootObj(se.info, sel.X) == st.builder && (sel.Sel.Name == "WriteString" || sel.Sel.Name == "Write") && len(c2.Args) == 1:
+				v, ok = se.eval(c2.Args[0], fr)
+			case rootObj(se.info, sel.X) == st.builder && (sel.Sel.Name == "WriteByte" || sel.Sel.Name == "WriteRune") && len(c2.Args) == 1:
+				if ch, isC := se.constIntArg(c2.Args[0], fr); isC && ch >= 0 && ch != '%' {
+					if sel.Sel.Name == "WriteByte" {
+						v, ok = []string{string([]byte{byte(ch)})}, ch < 256
+					} else {
+						v, ok = []string{string(rune(ch))}, true
+					}
+				}
+			default:
+				// fmt.Fprintf(&b, format, args...) / fmt.Fprint(&b, s)
+				dst := ast.Expr(nil)
+				if len(c2.Args) >= 2 {
+					dst = unparen(c2.Args[0])
+					if u, isU := dst.(*ast.UnaryExpr); isU && u.Op == token.AND {
+						dst = u.X
+					}
+				}
+				if fn := calleeOf(se.info, c2); fn != nil && dst != nil && rootObj(se.info, dst) == st.builder {
+					switch fullName(fn) {
+					case "fmt.Fprintf":
+						if fmts, okF := se.eval(c2.Args[1], fr); okF {
+							for _, f := range fmts {
+								v = append(v, se.applyFormatAll(f, c2.Args[2:], c2.Ellipsis.IsValid(), fr)...)
+							}
+							ok = true
+						}
+					case "fmt.Fprint", "io.WriteString":
+						if len(c2.Args) == 2 {
+							if bt, isB := se.info.TypeOf(c2.Args[1]).Underlying().(*types.Basic); isB && bt.Info()&types.IsString != 0 {
+								v, ok = se.eval(c2.Args[1], fr)
+							}
+						}
+					}
+				}
+			}
 			if !ok {
 				return nil, false, false
 			}
@@ -577,6 +717,142 @@ func (se *strEval) evalStmts(list []ast.Stmt, fr *envFrame, st *bodyState, depth
 		return nil, false, false
 	}
 	return nil, false, true
+}
+
+// crossConcat: every a followed by every b.
+func crossConcat(as, bs []string) []string {
+	var out []string
+	for _, a := range as {
+		for _, b := range bs {
+			out = appendUniq(out, a+b)
+		}
+	}
+	return out
+}
+
+// evalBuiltinBytes: the byte-slice forms of the builtins — make([]byte, 0[, n]) is empty, append(b, s...) and
+// append(b, c1, c2) (constant bytes) extend what b evaluates to.
+func (se *strEval) evalBuiltinBytes(call *ast.CallExpr, fr *envFrame) (vals []string, handled, ok bool) {
+	id, isID := unparen(call.Fun).(*ast.Ident)
+	if !isID {
+		return nil, false, false
+	}
+	b, isB := se.info.Uses[id].(*types.Builtin)
+	if !isB {
+		return nil, false, false
+	}
+	switch b.Name() {
+	case "make":
+		if len(call.Args) >= 2 && isByteSlice(se.info.TypeOf(call.Args[0])) {
+			if n, okN := constInt(se.info, call.Args[1]); okN && n == 0 {
+				return []string{""}, true, true
+			}
+		}
+		return nil, true, false
+	case "append":
+		if len(call.Args) == 0 || !isByteSlice(se.info.TypeOf(call.Args[0])) {
+			return nil, true, false
+		}
+		head, okH := se.eval(call.Args[0], fr)
+		if !okH {
+			return nil, true, false
+		}
+		if call.Ellipsis.IsValid() {
+			if len(call.Args) != 2 {
+				return nil, true, false
+			}
+			tail, okT := se.eval(call.Args[1], fr)
+			if !okT {
+				return nil, true, false
+			}
+			return crossConcat(head, tail), true, true
+		}
+		var sb strings.Builder
+		for _, a := range call.Args[1:] {
+			v, okV := se.constIntArg(a, fr)
+			if !okV || v < 0 || v > 255 {
+				return nil, true, false
+			}
+			sb.WriteByte(byte(v))
+		}
+		return crossConcat(head, []string{sb.String()}), true, true
+	}
+	return nil, false, false
+}
+
+// intText: the text strconv / %d produce for the integer expression e in the given base: the digits of a constant
+// (also one reached through the parameters of the helpers being summarised, or each row value of a constant
+// table), otherwise the hole %d (%x, %o, %b) — exactly what fmt.Sprintf with that verb evaluates to.
+func (se *strEval) intText(e ast.Expr, base int64, fr *envFrame) ([]string, bool) {
+	if base != 10 && base != 16 && base != 8 && base != 2 {
+		return nil, false
+	}
+	e = se.stripWidening(e)
+	t := se.info.TypeOf(e)
+	if t == nil {
+		return nil, false
+	}
+	if bt, isB := t.Underlying().(*types.Basic); !isB || bt.Info()&types.IsInteger == 0 {
+		return nil, false
+	}
+	if vs, ok := se.intArgVals(e, fr); ok {
+		var out []string
+		for _, v := range vs {
+			out = appendUniq(out, strconv.FormatInt(v, int(base)))
+		}
+		return out, true
+	}
+	switch base {
+	case 16:
+		return []string{"%x"}, true
+	case 8:
+		return []string{"%o"}, true
+	case 2:
+		return []string{"%b"}, true
+	}
+	return []string{"%d"}, true
+}
+
+// stripWidening removes value-preserving integer conversions (int64(mode) of an int, int(b) of a byte).
+func (se *strEval) stripWidening(e ast.Expr) ast.Expr {
+	for {
+		e = unparen(e)
+		call, ok := e.(*ast.CallExpr)
+		if !ok || len(call.Args) != 1 {
+			return e
+		}
+		tv, ok := se.info.Types[call.Fun]
+		if !ok || !tv.IsType() {
+			return e
+		}
+		if _, isConst := constInt(se.info, e); isConst {
+			return e
+		}
+		to, okT := tv.Type.Underlying().(*types.Basic)
+		from, okF := se.info.TypeOf(call.Args[0]).Underlying().(*types.Basic)
+		if !okT || !okF || to.Info()&types.IsInteger == 0 || from.Info()&types.IsInteger == 0 {
+			return e
+		}
+		size := func(b *types.Basic) int {
+			switch b.Kind() {
+			case types.Int8, types.Uint8:
+				return 8
+			case types.Int16, types.Uint16:
+				return 16
+			case types.Int32, types.Uint32:
+				return 32
+			}
+			return 64
+		}
+		fromU, toU := from.Info()&types.IsUnsigned != 0, to.Info()&types.IsUnsigned != 0
+		switch {
+		case fromU == toU && size(to) >= size(from):
+		case fromU && !toU && size(to) > size(from):
+		default:
+			return e
+		}
+		e = call.Args[0]
+	}
 }
 
 // onlyReturns: the statement (tree of blocks / if-else) consists of return statements only.
